@@ -2297,6 +2297,9 @@ func peerMapToList(peers map[peer.ID]struct{}) []peer.ID {
 }
 
 func shufflePeers(peers []peer.ID) {
+	if verifShufflePeers(peers) {
+		return
+	}
 	for i := range peers {
 		j := rand.Intn(i + 1)
 		peers[i], peers[j] = peers[j], peers[i]
@@ -2304,6 +2307,9 @@ func shufflePeers(peers []peer.ID) {
 }
 
 func shufflePeerInfo(peers []*pb.PeerInfo) {
+	if verifShufflePeerInfo(peers) {
+		return
+	}
 	for i := range peers {
 		j := rand.Intn(i + 1)
 		peers[i], peers[j] = peers[j], peers[i]
@@ -2311,6 +2317,9 @@ func shufflePeerInfo(peers []*pb.PeerInfo) {
 }
 
 func shuffleStrings(lst []string) {
+	if verifShuffleStrings(lst) {
+		return
+	}
 	for i := range lst {
 		j := rand.Intn(i + 1)
 		lst[i], lst[j] = lst[j], lst[i]
